@@ -3,6 +3,7 @@ package codec
 import (
 	"fmt"
 	"net/url"
+	"sort"
 	"strings"
 
 	"github.com/iancoleman/strcase"
@@ -12,6 +13,29 @@ import (
 	"google.golang.org/grpc/status"
 	"google.golang.org/protobuf/reflect/protoreflect"
 )
+
+// checkOneofArm rejects addressing a member of a oneof when another member of
+// that oneof was already given by an earlier parameter: setting it would
+// silently drop the first.
+func checkOneofArm(set j5reflect.PropertySet, prop j5reflect.Property) error {
+	// same distinction as decodeRoot makes
+	if _, isObject := set.(j5reflect.Object); isObject {
+		return nil
+	}
+	if _, isOneof := set.(j5reflect.Oneof); !isOneof {
+		return nil
+	}
+	name := prop.Schema().JSONName
+	for _, other := range set.ListPropertyNames() {
+		if other == name {
+			continue
+		}
+		if _, has, err := set.GetValue(other); err == nil && has {
+			return status.Error(codes.InvalidArgument, fmt.Sprintf("multiple keys for oneof: %q and %q", other, name))
+		}
+	}
+	return nil
+}
 
 func propertyAtPath(root j5reflect.Root, path string) (j5reflect.Property, error) {
 	parts := strings.Split(path, ".")
@@ -25,6 +49,9 @@ func propertyAtPath(root j5reflect.Root, path string) (j5reflect.Property, error
 		}
 		if err != nil {
 			return nil, status.Error(codes.InvalidArgument, fmt.Sprintf("unknown property %q", part))
+		}
+		if err := checkOneofArm(root, prop); err != nil {
+			return nil, err
 		}
 		var field j5reflect.Field
 		if prop.IsSet() {
@@ -45,10 +72,17 @@ func propertyAtPath(root j5reflect.Root, path string) (j5reflect.Property, error
 		}
 		return nil, status.Error(codes.InvalidArgument, fmt.Sprintf("property %q is not a container", part))
 	}
-	if prop, err := root.GetProperty(tail); err == nil {
-		return prop, nil
+	prop, err := root.GetProperty(tail)
+	if err != nil {
+		prop, err = root.GetProperty(strcase.ToLowerCamel(tail))
 	}
-	return root.GetProperty(strcase.ToLowerCamel(tail))
+	if err != nil {
+		return nil, err
+	}
+	if err := checkOneofArm(root, prop); err != nil {
+		return nil, err
+	}
+	return prop, nil
 }
 
 // queryScalarValue converts the text of a query parameter for the field types
@@ -71,7 +105,15 @@ func (c *Codec) decodeQuery(queryString url.Values, msg protoreflect.Message) er
 		return err
 	}
 
-	for key, values := range queryString {
+	// in a fixed order: the outcome must not depend on map iteration
+	keys := make([]string, 0, len(queryString))
+	for key := range queryString {
+		keys = append(keys, key)
+	}
+	sort.Strings(keys)
+
+	for _, key := range keys {
+		values := queryString[key]
 		if len(values) == 0 {
 			// url.Values built by hand may hold a key without values
 			continue
